@@ -63,8 +63,46 @@ def gen(tier, rng):
     return H, dict(kind='permission-heavy random histories + a deterministic link/target x follow x recursive x mode battery: chmod / chmod_b (octal dirs/files, symbolic, recursive or not, follow or not) / chown / chown_b / mkdir_m / mkfile_m + mode/owner queries', histories=len(H), exhaustive=False)
 
 
+def _entries(dump):
+    ents = {}
+    if ' ## ' in dump:
+        for r in dump.split(' ## ', 1)[1].split('|'):
+            q = r.split(' ')
+            if r.startswith('E '):
+                ents[q[1]] = dict(x.split('=', 1) for x in q[2:] if '=' in x)
+    return ents
+
+
+def _follow_judge(req, impl, prev):
+    """the reference tree filesystem has no verdict for follow(): narrow verdict written from the property text for
+    chmod_b(<link spelled as its clean absolute key>).follow().no_recurse() with one non-zero octal value for dirs and files and
+    no symbolic clause, link -> existing non-link entry: the TARGET gets exactly the requested permission bits (type bits kept),
+    every other entry (the link included) keeps its mode."""
+    t = req.split(' ')
+    if t[0] != 'chmod_b' or len(t) != 7 or t[4] != '1' or t[5] != '0' or t[6] not in ('x', '') or t[2] != t[3]:
+        return None
+    try:
+        want = int(t[2], 8)
+    except ValueError:
+        return None
+    io = impl.split(' ## ')[0]
+    if want == 0 or want > 0o777 or not io.startswith('ok') or not prev:
+        return None
+    before, after = _entries(prev), _entries(impl)
+    lk = before.get(t[1][1:])
+    if not lk or lk.get('l') != '1' or lk.get('alt') not in before or before[lk['alt']].get('l') != '0' or set(before) != set(after):
+        return None
+    tgt = lk['alt']
+    for k in before:
+        m0, m1 = int(before[k]['mode'], 8), int(after[k]['mode'], 8)
+        exp = (m0 & ~0o7777) | want if k == tgt else m0
+        if m1 != exp:
+            return (f'mode({bytes.fromhex(k).decode("utf8", "replace")}) = {exp:o}', f'chmod through a followed link: entry {bytes.fromhex(k).decode("utf8", "replace")} has mode {m1:o}, the property demands {exp:o}')
+    return None
+
+
 def judge(req, impl, f, prev):
-    return c01.judge(req, impl, f, prev)
+    return c01.judge(req, impl, f, prev) or _follow_judge(req, impl, prev)
 
 
 SPEC = dict(
@@ -72,7 +110,7 @@ SPEC = dict(
     foreign_classes=('empty_lines_noop', 'listing_includes_links', 'moved_link_rel_stale'),
     rule='(1) pure: sys::mode on all 512 permission values x all 189 well-formed single clauses x {dir, file, link-to-file, link-to-dir}, random double clauses and random malformed strings, against the Lean state machine and the grammar (coverage.pure_*); '
          '(2) sessions: permission-heavy random histories over the bounded namespace with every builder option combination, judged against the reference tree filesystem (exactly the selected entries change, to exactly the requested value, links and type bits untouched). distinct = distinct (pre-state, call) pairs',
-    assumptions=['Memfs only (Stdfs shares sys::mode and the _chmod driver; its set_permissions calls belong to C02)', 'recursive + follow selection is covered by correspondence only'],
+    assumptions=['Memfs only (Stdfs shares sys::mode and the _chmod driver; its set_permissions calls belong to C02)', 'recursive + follow selection is covered by correspondence only; follow + no_recurse on a link root with one octal value has a verdict of its own (_follow_judge)'],
     trusted_base=['hand transcription Rust->Lean of sys::mode and Memfs::_chmod/_chown (checked by the correspondence run)', 'grammar Rivia/Spec/ChmodGrammar.lean + reference tree filesystem', 'Rust harness + Python driver'],
 )
 
